@@ -5031,7 +5031,6 @@ class Entity(object, metaclass=EntityMeta):
                 obj._status_ = status
                 for cache_index, old_key in undo_list: cache_index[old_key] = obj
 
-            undo_funcs.append(undo_func)
             try:
                 for attr in obj._attrs_:
                     if not attr.is_collection: continue
@@ -5068,6 +5067,9 @@ class Entity(object, metaclass=EntityMeta):
                             reverse.reverse_remove((val,), obj, undo_funcs)
                         else: throw(NotImplementedError)
 
+                # registered only now: the object is queued after its cascaded dependents, so its undo
+                # (which pops the queue) has to run before theirs
+                undo_funcs.append(undo_func)
                 cache_indexes = cache.indexes
                 for attr in obj._simple_keys_:
                     val = get_val(attr)
